@@ -446,7 +446,12 @@ fn gen_seq(rng: &mut Rng) -> Seq {
                 open.push('l');
             }
             6 | 7 => {
-                if let Some(c) = open.pop() {
+                // pops match pushes, but a clip pushed before a layer may be popped while the layer is open
+                if open.last() == Some(&'l') && open.contains(&'c') && rng.chance(0.3) {
+                    let k = open.iter().rposition(|c| *c == 'c').unwrap();
+                    open.remove(k);
+                    calls.push(Call::Op(Op::PopClip));
+                } else if let Some(c) = open.pop() {
                     calls.push(Call::Op(if c == 'c' { Op::PopClip } else { Op::PopLayer }));
                 }
             }
